@@ -539,6 +539,11 @@ impl Prop for C09 {
             for (k, (n, e)) in al.states.iter().enumerate() {
                 sts.push(StartState::new(k + 1, n, *e, Span::new(0, 0)));
             }
+            // (states are found by id, not by position: every other case lists them in another order)
+            if hash64(&src) % 2 == 1 && sts.len() > 1 {
+                sts.rotate_left(1);
+                o.class("from_rules:states-not-in-id-order");
+            }
             Some(LRNonStreamingLexerDef::<LT>::from_rules(sts, rules2))
         } else {
             None
